@@ -73,6 +73,9 @@ func (c12) Gen(seed uint64, idx int, tier string) *Scenario {
 	if r.Chance(1, 4) {
 		sc.Reads[r.Intn(len(sc.Reads))].Err = true
 	}
+	// Close fails (a checksum found wrong at the end, a network file system): whatever the call
+	// does with that error, the goroutine that closes and the caller must not race on it
+	sc.CloseErr = r.Chance(1, 4)
 	if r.Chance(1, 3) {
 		// the log writer is a plain unsynchronised buffer that the caller reads as soon as the
 		// call is back: any goroutine of the call that still writes then is a data race
@@ -120,6 +123,7 @@ type callerEnv struct {
 	dumps      [][]byte
 	orderSrc   []byte
 	orderKind  string
+	localBad   atomic.Value
 }
 
 // doOp performs one call and returns a digest of everything it produced.
@@ -189,7 +193,32 @@ func (e *callerEnv) doOp(op, arg int) string {
 			if len(e.dumps) > 0 && arg&2 != 0 {
 				d = e.dumps[(arg>>2)%len(e.dumps)]
 			}
-			lr := loadVia(d, nil, "l", arg&1 != 0)
+			switch arg >> 2 & 7 {
+			case 5:
+				d = d[:len(d)*(arg&3+1)/5] // a file whose write was interrupted, next to complete ones
+			case 6:
+				d = append([]byte("#!"), d[2:]...) // not a dump at all
+			}
+			var lr *loadResult
+			if arg&16 != 0 {
+				// a slow source: the load takes many small reads and gives way to the other callers
+				// at each, so that loads of different files really overlap
+				lr = &loadResult{Out: &bytes.Buffer{}, Log: &bytes.Buffer{}}
+				func() {
+					defer func() {
+						if x := recover(); x != nil {
+							lr.Panic = panicSig(x)
+						}
+					}()
+					script := make([]simio.ReadStep, 0, 64)
+					for n := 0; n < len(d) && len(script) < 4096; n += 1 + arg%7 {
+						script = append(script, simio.ReadStep{N: 1 + arg%7})
+					}
+					lr.Prog, lr.Err = bcl.LoadProg(yieldReader{&simio.SimReader{Data: d, Script: script}}, "l", bcl.OptOutput(lr.Out), bcl.OptLogger(lr.Log))
+				}()
+			} else {
+				lr = loadVia(d, nil, "l", arg&1 != 0)
+			}
 			if lr.Err != nil || lr.Panic != "" {
 				res = digest("load", errText(lr.Err), lr.Panic)
 				return
@@ -197,6 +226,32 @@ func (e *callerEnv) doOp(op, arg int) string {
 			ex := Exec(lr.Prog, lr.Out, lr.Log, 0)
 			res = digest("load-exec", ex.Digest())
 		case 5:
+			if arg&12 == 12 {
+				// two callers bind two distinct struct types that happen to share package and name
+				// (declared locally in two functions); what each gets follows from its own type
+				// and source alone, whichever was bound first in this process
+				// (the key "listen" names the field Listen in one type and, by its tag, Port in the other)
+				src, tg, want := []byte("def cfg \"a\" { addr = \"10.0.0.1\"; backup = \"b\"; port = 80; listen = 82 }\nbind cfg -> struct\n"), localCfgA(), "&{Name:a Primary:10.0.0.1 Backup:b Port:80 Spare1:0 Spare2:0 Listen:82}|<nil>"
+				if arg&1 != 0 {
+					src, tg, want = localCfgSrcB, localCfgB(), "&{Name:b Backup:c Port:81 Primary:10.0.0.2}|<nil>"
+				}
+				var out, log bytes.Buffer
+				got := ""
+				func() {
+					defer func() {
+						if x := recover(); x != nil {
+							got = "panic: " + panicSig(x)
+						}
+					}()
+					err := bcl.Unmarshal(src, tg, bcl.OptOutput(&out), bcl.OptLogger(&log))
+					got = fmt.Sprintf("%+v|%s", tg, errText(err))
+				}()
+				if got != want {
+					e.localBad.Store(fmt.Sprintf("got %s, the type and source say %s", got, want))
+				}
+				res = digest("unmarshal-local", got)
+				return
+			}
 			tg := newTarget(e.orderKind)
 			var out, log bytes.Buffer
 			err := bcl.Unmarshal(e.orderSrc, tg, bcl.OptOutput(&out), bcl.OptLogger(&log))
@@ -218,6 +273,11 @@ func (e *callerEnv) doOp(op, arg int) string {
 	}()
 	return res
 }
+
+// yieldReader lets the other goroutines run before every read (no synchronisation involved).
+type yieldReader struct{ r io.Reader }
+
+func (y yieldReader) Read(p []byte) (int, error) { runtime.Gosched(); return y.r.Read(p) }
 
 const numOps = 8
 
@@ -500,6 +560,9 @@ func c12Callers(sc *Scenario) *Outcome {
 					fmt.Sprintf("caller %d call %d (%s) gave a different result when %d callers ran concurrently", c, k, opNames[cl.op], nc), sc)
 			}
 		}
+	}
+	if lb, _ := env.localBad.Load().(string); lb != "" {
+		o.viol("C12", "interference", "binding one struct type is influenced by another type of the same name bound elsewhere", lb, sc)
 	}
 	if ch := changedError(); ch != "" {
 		o.viol("C12", "interference", "an error value returned by one call is changed by a later call", ch, sc)
